@@ -57,7 +57,10 @@ Sig(nm)             == [k |-> "Sig",  name |-> nm, n |-> 64]    \* signature: al
 VarG(nm, w, gap, ls, d) == [k |-> "Var", name |-> nm, w |-> w, gap |-> gap, lens |-> ls, def |-> d]
 Var(nm, w, ls, d)   == VarG(nm, w, 0, ls, d)
 \* w-byte count, then count elements of grammar g
-Lst(nm, w, g, cs)   == [k |-> "List", name |-> nm, w |-> w, g |-> g, counts |-> cs]
+Lst(nm, w, g, cs)   == [k |-> "List", name |-> nm, w |-> w, g |-> g, counts |-> cs, deep |-> TRUE]
+\* the same, but the element is varied field by field only in the thorough tier (its grammar is a top-level type
+\* whose shapes are enumerated anyway)
+LstT(nm, w, g, cs)  == [k |-> "List", name |-> nm, w |-> w, g |-> g, counts |-> cs, deep |-> Wide]
 \* w-byte length, then a nested message of grammar g occupying exactly that many bytes
 Nest(nm, w, g)      == [k |-> "Nest", name |-> nm, w |-> w, g |-> g]
 \* one tag byte selecting the grammar of what follows; flag = TRUE: any non-zero byte means 1
@@ -127,8 +130,8 @@ G == [g \in GNames |->
     [] g = "SleepCommand" -> CmdG
     [] g = "WakeCommand"  -> CmdG
     [] g = "Cmd"          -> CmdG
-    [] g = "QueuedState"  -> << Lst("routes", 2, "NRA", {0, 1, 2, 300}), Lst("withdraws", 2, "NRW", {0, 1, 2, 300}),
-                                Lst("nodeInfos", 2, "NNI", {0, 1, 2, 40}), Opt("sleepCmd", "Cmd"), Opt("wakeCmd", "Cmd") >>
+    [] g = "QueuedState"  -> << LstT("routes", 2, "NRA", {0, 1, 2, 300}), LstT("withdraws", 2, "NRW", {0, 1, 2, 300}),
+                                LstT("nodeInfos", 2, "NNI", {0, 1, 2, 40}), Opt("sleepCmd", "Cmd"), Opt("wakeCmd", "Cmd") >>
     \* ---- sub-grammars
     [] g = "Empty" -> << >>
     [] g = "ID"    -> << Fix("id", 16) >>
@@ -230,7 +233,7 @@ FieldAlts(f) ==
     [] f.k = "Var"   -> f.lens
     \* (the largest count with minimal elements, so that the encoding stays near one frame)
     [] f.k = "List"  -> {[c |-> n, e |-> DefSk(f.g)] : n \in f.counts \ {1, Max(f.counts)}}
-                        \cup {[c |-> 1, e |-> e] : e \in SkAlts(f.g)}
+                        \cup {[c |-> 1, e |-> e] : e \in IF f.deep THEN SkAlts(f.g) ELSE {DefSk(f.g), MinSk(f.g), MaxSk(f.g)}}
                         \cup {[c |-> Max(f.counts), e |-> MinSk(f.g)]}
     [] f.k = "Nest"  -> SkAlts(f.g)
     [] f.k = "Union" -> UNION {{[tag |-> t, val |-> v] : v \in SkAlts(f.alts[t])} : t \in DOMAIN f.alts}
@@ -430,7 +433,7 @@ Parse(ty, L) ==
 (* Allocation before validation (DecodeQueuedState)                    *)
 (* ------------------------------------------------------------------ *)
 \* Go sizes of RouteAdvertise / RouteWithdraw / NodeInfoAdvertise values (checked against unsafe.Sizeof by the harness)
-ElemSize == << 120, 72, 320 >>
+ElemSize == << 120, 72, 288 >>
 \* smallest number of input bytes one decodable entry occupies: 2-byte length + min-length guard of the entry decoder
 MinEntry == << 2 + 28, 2 + 26, 2 + 28 >>
 AllocBound(nbytes) == 1048576 + 64 * nbytes
